@@ -284,8 +284,10 @@ func mulPosRef(m m4, v v3) (o, abs v3) {
 }
 
 // trsMatrix is T*R*S built from the translation, the unit quaternion and the scale.
-func trsMatrix(t v3, q q4, s v3) m4 {
-	r := quatMatrix(q)
+func trsMatrix(t v3, q q4, s v3) m4 { return trsMatrixR(t, quatMatrix(q), s) }
+
+// trsMatrixR is T*R*S with the rotation given as a matrix.
+func trsMatrixR(t v3, r m3, s v3) m4 {
 	var m m4
 	for i := 0; i < 3; i++ {
 		for j := 0; j < 3; j++ {
